@@ -214,3 +214,87 @@ func (w *RichLimitWriter) ReadFrom(r io.Reader) (int64, error) {
 		}
 	}
 }
+
+// RichSource is an in-memory source that, besides Read, offers the optional interfaces a decoder may
+// look for and take another path on: io.ByteScanner, io.WriterTo, io.Seeker, io.ReaderAt, io.Closer and
+// Len (what bytes.Reader, strings.Reader, bufio.Reader and os.File offer between them). All paths walk
+// the same data. SeekFails makes Seek fail the way it does on a pipe-backed *os.File; Closed counts
+// Close calls (the source belongs to the caller: a decoder has no business closing it).
+type RichSource struct {
+	Data      []byte
+	SeekFails bool
+	Chunk     int // > 0: at most Chunk bytes per Read
+	off       int
+	Closed    int
+	Seeks     int
+}
+
+func (s *RichSource) Read(p []byte) (int, error) {
+	if s.off >= len(s.Data) {
+		return 0, io.EOF
+	}
+	n := copy(p, s.Data[s.off:])
+	if s.Chunk > 0 && n > s.Chunk {
+		n = s.Chunk
+	}
+	s.off += n
+	return n, nil
+}
+
+func (s *RichSource) ReadByte() (byte, error) {
+	if s.off >= len(s.Data) {
+		return 0, io.EOF
+	}
+	s.off++
+	return s.Data[s.off-1], nil
+}
+
+func (s *RichSource) UnreadByte() error {
+	if s.off == 0 {
+		return errors.New("RichSource.UnreadByte: at beginning")
+	}
+	s.off--
+	return nil
+}
+
+func (s *RichSource) WriteTo(w io.Writer) (int64, error) {
+	n, err := w.Write(s.Data[s.off:])
+	s.off += n
+	return int64(n), err
+}
+
+func (s *RichSource) Seek(offset int64, whence int) (int64, error) {
+	s.Seeks++
+	if s.SeekFails {
+		return 0, errors.New("seek: illegal seek")
+	}
+	var abs int64
+	switch whence {
+	case io.SeekStart:
+		abs = offset
+	case io.SeekCurrent:
+		abs = int64(s.off) + offset
+	case io.SeekEnd:
+		abs = int64(len(s.Data)) + offset
+	}
+	if abs < 0 {
+		return 0, errors.New("seek: negative position")
+	}
+	s.off = int(min(abs, int64(len(s.Data))))
+	return abs, nil
+}
+
+func (s *RichSource) ReadAt(p []byte, off int64) (int, error) {
+	if off >= int64(len(s.Data)) {
+		return 0, io.EOF
+	}
+	n := copy(p, s.Data[off:])
+	if n < len(p) {
+		return n, io.EOF
+	}
+	return n, nil
+}
+
+func (s *RichSource) Close() error { s.Closed++; return nil }
+
+func (s *RichSource) Len() int { return len(s.Data) - s.off }
